@@ -46,7 +46,10 @@ func faultsMode(in *bufio.Scanner, out *json.Encoder) error {
 			sc.Source = "scanner"
 			kk := k
 			sc.Fault = &kk
+			// the two kinds of error alternate between the two deliveries
+			sc.EOFWrap = k%2 == 1
 			rd := c
+			rd.EOFWrap = k%2 == 0
 			rd.Source = "reader"
 			bo := offs[k]
 			rd.Fault = &bo
